@@ -66,6 +66,7 @@ class Ctx:
         self.world = World(cfg, seed=int(case.get('seed', 0)), trace=trace)
         self.backend = self.world.backend
         self.clients: dict[int, Client] = {}
+        self.all_clients: list[Client] = []
         self.violations: list[Violation] = []
         self.step_index = -1
         self.stats: dict[str, int] = {}
@@ -98,6 +99,7 @@ class Ctx:
         cl = Client(self.world, sid, action.get('proto', 'imap'),
                     action.get('peer', '1.2.3.4'))
         self.clients[sid] = cl
+        self.all_clients.append(cl)
         return cl
 
     # -- executing one step -------------------------------------------------
@@ -174,7 +176,7 @@ class Ctx:
     # -- collecting what clients and connection tasks observed ------------
 
     def collect(self) -> None:
-        for cl in list(self.clients.values()) + self.probe_clients:
+        for cl in self.all_clients + self.probe_clients:
             while cl.violations:
                 v = cl.violations.pop(0)
                 sig = {}
@@ -187,6 +189,10 @@ class Ctx:
             if conn.done and not getattr(conn, '_outcome_seen', False):
                 conn._outcome_seen = True
                 self._task_outcome(cl)
+                conn.scrub()
+                cl.shadow.on_disconnect()
+                import gc
+                gc.collect()
 
     def _task_outcome(self, cl: Client) -> None:
         task = cl.conn.task
@@ -286,7 +292,7 @@ class Ctx:
     def finish(self) -> None:
         """Truncated output at the end of a stream is a wire violation unless
         the transport was torn down under the writer."""
-        for cl in list(self.clients.values()) + self.probe_clients:
+        for cl in self.all_clients + self.probe_clients:
             cl.pump()
             left = cl.stream.leftover(cl.conn.out)
             if left and cl.stream.error is None:
